@@ -29,7 +29,7 @@ REG = {
                 "neighbours, the subnormal range, the largest finite value and the overflow threshold, ints up to 10**400 incl. ints that are not doubles"
                 + _RULE_LOOKALIKE + " (steps: serialize plain / relaxed / with a shape violation, deserialize a reference encoding whose value is known, "
                 "deserialize arbitrary bytes); non-trivial = every case; distinct = distinct (type, value, flags)",
-        "technique": "Lean 4 theorems over an executable model of the codec (mutual structural induction over all types and values) + "
+        "technique": "Lean 4 theorems over an executable model of the codec (mutual structural induction over all types and values); the bit-level writer / reader classes are re-translated from the working tree on every run and proved equal to the two-path buffer model (py2lean_serdes: Gen.Serdes, Bridge.Serdes, Props.C06Gen) + "
                      "differential correspondence with pydsdl.serialize/deserialize + independent reference encoder and exact-rational float oracle",
         "level_text": "For the modelled codec it is proved in Lean 4, for all well-formed types, all valid values, every aligned offset and any trailing "
                       "data, that decoding an encoding returns the value and stops at its end; that the encoding's bit length lies in a length set "
@@ -86,7 +86,7 @@ REG = {
                 "byte, utf8, uint8 and other arrays, at the top level and nested as field, array element, union variant, nested delimited); "
                 "every byte string also with 2-4 zero / junk suffixes" + _RULE_LOOKALIKE.replace("about 9%", "about 1%") + " (steps: deserialize); "
                 "non-trivial = non-empty byte string; distinct = distinct (type, bytes, flags)",
-        "technique": "Lean 4 theorems over the executable decoder model + differential correspondence with pydsdl.deserialize + metamorphic oracle on the real library",
+        "technique": "Lean 4 theorems over the executable decoder model; _BitReader is re-translated from the working tree on every run and proved equal to the reader model (py2lean_serdes: Gen.Serdes, Bridge.Serdes, Props.C07Gen) + differential correspondence with pydsdl.deserialize + metamorphic oracle on the real library",
         "level_text": "For the modelled decoder it is proved in Lean 4, for all types and all bit strings: totality with only the four decode error classes; "
                       "every returned value is valid and a fixed point of encode/decode; implicit truncation; stability of every decoding step under zero "
                       "extension of the window (including bounded sub-readers) and its converse up to DelimiterHeaderError; rejection of over-capacity lengths, out-of-range tags and oversized headers. "
